@@ -11,6 +11,9 @@ MODULE = ("Atmosphere", "typhon/physics/atmosphere.py", [
     {"name": "vmr2specific_humidity"},
     {"name": "water_vapor_pressure2specific_humidity"},
     {"name": "density", "const_defaults": True},
+    # second reading with the gas constant as a real parameter: TR.density_R p T R  (TR.density p T is its instance
+    # R = constants.gas_constant_dry_air — `simp only [TR.density, TR.density_R]` proves that); for density(p, T, R_v)
+    {"name": "density", "as": "density_R"},
     {"name": "e_eq_ice_mk"},
     {"name": "e_eq_water_mk"},
     {"name": "e_eq_mixed_mk", "glue": [
